@@ -65,6 +65,7 @@ var (
 	flagDeadline = flag.Duration("deadline", 0, "wall-clock budget for this shard")
 	flagList     = flag.Bool("list", false, "list scenarios")
 	flagSoft     = flag.Duration("soft", 0, "soft per-scenario budget for optional deeper levels")
+	flagBonus    = flag.Bool("bonus", false, "quick tier: select the scenarios reserved for the thorough tier instead (run to their required bound only)")
 )
 
 // ReplayFile is a stored violating schedule.
@@ -83,9 +84,14 @@ type ReplayFile struct {
 // Run is the body of the single TestMC entry point of a harness package.
 func Run(t *testing.T, scenarios []Scenario) {
 	tier := *flagTier
+	bonus := *flagBonus && tier != "thorough"
 	var sel []Scenario
 	for _, s := range scenarios {
-		if s.ThoroughOnly && tier != "thorough" {
+		if bonus {
+			if !s.ThoroughOnly {
+				continue
+			}
+		} else if s.ThoroughOnly && tier != "thorough" {
 			continue
 		}
 		if *flagOnly != "" && !strings.Contains(s.Name, *flagOnly) {
@@ -147,6 +153,13 @@ func Run(t *testing.T, scenarios []Scenario) {
 		}
 		if tier != "thorough" && s.QuickMin != nil {
 			o.MinBound = *s.QuickMin
+		} else if o.MinBound == 0 {
+			// no optional levels were asked for: the whole bound is what
+			// "exhaustive" refers to, whatever soft budget the driver hands out
+			o.MinBound = o.Bound
+		}
+		if bonus && o.Bound > o.MinBound {
+			o.Bound = o.MinBound // no optional levels beyond the quick set
 		}
 		start := time.Now()
 		st := mc.Explore(o, s.Mk)
